@@ -78,7 +78,7 @@ pub fn test_case(case: &TrainCase) -> TestResult {
 }
 
 pub fn run(rep: &mut Report) {
-    let n = rep.n(6000, 200000);
+    let n = rep.n(60000, 600000);
     rep.run_prop(
         "examples",
         "generated corpora (1-8 sentences over a 3-6 character palette; tokenized, partially \
